@@ -384,6 +384,11 @@ func (m Message) ErrorMessage() string {
 }
 
 func (m Message) Data() plugintypes.AuditLogMessageData {
+	if m.Data_ == nil {
+		// Without part K a message carries no match data: hand out a nil
+		// interface, not a nil *MessageData whose methods dereference it.
+		return nil
+	}
 	return m.Data_
 }
 
